@@ -123,3 +123,106 @@ def prior_sampling_sites(ctx, cg: CallGraph) -> Dict[Tuple[str, str], List[ast.C
     _PS[k] = result
     ctx.extra["prior_sampling_forwarders"] = sorted(f"{k[1]}({','.join(sorted(v))})" for k, v in draws_if.items())
     return result
+
+
+INPLACE_FREE = {"requires_grad_", "share_memory_", "retain_grad"}  # in-place only on autograd / storage flags, not on values
+
+
+def inplace_on_state_values(ctx, funcs=None):
+    """[(func, node, description)]: in-place modification of a tensor that (may) alias a value held by a State.
+
+    A State hands out its cached tensors (and its fork keeps the same objects): `v = state[name]` followed by `v *= a`, `v[m] = b`,
+    `v.clamp_(...)`, `torch.f(..., out=v)` rewrites the cache (and the fork used by revert) behind the State's back.
+    Aliases followed (flow-insensitively, per function): names bound to `S[...]`, `S.get_tensor_value(...)`, `<alias>.value`, another
+    alias, tuple-unpacking of a local closure returning aliases; any arithmetic / call result is fresh."""
+    import ast as _ast
+    from ..astq import U as _U, statements as _st
+    sw = state_writes(ctx)
+    ix = ctx.ix
+    out = []
+    holders = []  # functions in which at least one local aliases a State value (vacuity guard of the callers)
+    for f in (funcs if funcs is not None else ix.iter_funcs()):
+        if f.cls == sw.state_cls:
+            continue
+        prov = sw.provenance(f)
+        tainted = set()
+        closures = {n.name: n for n in _ast.walk(f.node) if isinstance(n, _ast.FunctionDef) and n is not f.node}
+
+        def is_read(e) -> bool:
+            if isinstance(e, _ast.Subscript) and sw._is_state_expr(e.value, f, prov):
+                return True
+            if isinstance(e, _ast.Call) and isinstance(e.func, _ast.Attribute) and e.func.attr in ("get_tensor_value", "get_tensor_values", "__getitem__") and sw._is_state_expr(e.func.value, f, prov):
+                return True
+            return False
+
+        def alias(e) -> bool:
+            if is_read(e):
+                return True
+            if isinstance(e, _ast.Name):
+                return e.id in tainted
+            if isinstance(e, _ast.Attribute) and e.attr in ("value", "weight", "data", "T"):
+                return alias(e.value)
+            if isinstance(e, _ast.Subscript):
+                return alias(e.value)  # basic indexing gives a view
+            if isinstance(e, _ast.Call) and isinstance(e.func, _ast.Attribute) and e.func.attr in ("view", "reshape", "squeeze", "unsqueeze", "expand", "t", "detach", "flatten", "transpose", "permute"):
+                return alias(e.func.value)
+            if isinstance(e, _ast.IfExp):
+                return alias(e.body) or alias(e.orelse)
+            if isinstance(e, _ast.Call) and isinstance(e.func, _ast.Name) and e.func.id in closures:
+                return any(alias(r) or (isinstance(r, _ast.Tuple) and any(alias(x) for x in r.elts)) for r in closure_ret(e.func.id) or [])
+            return False
+
+        def closure_ret(name):
+            fn = closures.get(name)
+            if fn is None:
+                return None
+            rets = [s.value for s in _ast.walk(fn) if isinstance(s, _ast.Return) and s.value is not None]
+            return rets
+
+        for _ in range(4):
+            before = len(tainted)
+            for st in _ast.walk(f.node):
+                if not isinstance(st, _ast.Assign) or len(st.targets) != 1:
+                    continue
+                t, v = st.targets[0], st.value
+                if isinstance(t, _ast.Name) and alias(v):
+                    tainted.add(t.id)
+                elif isinstance(t, _ast.Tuple) and not isinstance(v, _ast.Tuple) and alias(v) and not (isinstance(v, _ast.Call) and isinstance(v.func, _ast.Name) and v.func.id in closures
+                                                                                                      and any(isinstance(r, _ast.Tuple) for r in closure_ret(v.func.id) or [])):
+                    for a in t.elts:  # unpacking a tuple of State values
+                        if isinstance(a, _ast.Name):
+                            tainted.add(a.id)
+                elif isinstance(t, _ast.Tuple) and isinstance(v, _ast.Tuple) and len(t.elts) == len(v.elts):
+                    for a, b in zip(t.elts, v.elts):
+                        if isinstance(a, _ast.Name) and alias(b):
+                            tainted.add(a.id)
+                elif isinstance(t, _ast.Tuple) and isinstance(v, _ast.Call) and isinstance(v.func, _ast.Name) and v.func.id in closures:
+                    for r in closure_ret(v.func.id) or []:
+                        if isinstance(r, _ast.Tuple) and len(r.elts) == len(t.elts):
+                            for a, b in zip(t.elts, r.elts):
+                                if isinstance(a, _ast.Name) and alias(b):
+                                    tainted.add(a.id)
+                elif isinstance(t, _ast.Name) and isinstance(v, _ast.Call) and isinstance(v.func, _ast.Name) and v.func.id in closures:
+                    if any(alias(r) for r in closure_ret(v.func.id) or []):
+                        tainted.add(t.id)
+            if len(tainted) == before:
+                break
+        if tainted:
+            holders.append((f, sorted(tainted)))
+        for n in _ast.walk(f.node):
+            if isinstance(n, _ast.AugAssign):
+                tg = n.target
+                base = tg.value if isinstance(tg, _ast.Subscript) else tg
+                if alias(base) or is_read(tg):
+                    out.append((f, n, f"`{_U(n)[:70]}` modifies in place a tensor read from the State"))
+            elif isinstance(n, _ast.Assign):
+                for tg in n.targets:
+                    if isinstance(tg, _ast.Subscript) and (alias(tg.value)) and not sw._is_state_expr(tg.value, f, prov):
+                        out.append((f, n, f"`{_U(n)[:70]}` writes into a tensor read from the State"))
+            elif isinstance(n, _ast.Call):
+                if isinstance(n.func, _ast.Attribute) and n.func.attr.endswith("_") and not n.func.attr.endswith("__") and n.func.attr not in INPLACE_FREE and alias(n.func.value):
+                    out.append((f, n, f"`{_U(n)[:70]}` calls an in-place tensor method on a value read from the State"))
+                for k in n.keywords:
+                    if k.arg == "out" and alias(k.value):
+                        out.append((f, n, f"`{_U(n)[:70]}` writes its result into a tensor read from the State"))
+    return out, holders
